@@ -161,7 +161,7 @@ def coq_eval(workdir, name, preamble, cases, chunk=100, timeout=900, nproc=16):
     while pending or running:
         while pending and len(running) < nproc:
             k, fn = pending.pop(0)
-            p = subprocess.Popen(['timeout', str(timeout), 'coqc', '-R', env.COQ, 'Depccg', '-Q', workdir, 'WC07html', fn],
+            p = subprocess.Popen(['timeout', str(timeout), env.COQC, '-R', env.COQ, 'Depccg', '-Q', workdir, 'WC07html', fn],
                                  stdout=subprocess.PIPE, stderr=subprocess.PIPE, text=True)
             running.append((k, fn, p))
         k, fn, p = running.pop(0)
